@@ -58,6 +58,8 @@ W_CONT = 'scalar, array and Series inputs give different results'
 W_TYPE = 'raises for a scalar or one-element input'
 W_DERIV = 'analytic derivative is not the derivative of the implicit function'
 W_STRAIN = 'reported strain is not the Ramberg-Osgood strain of the returned stress'
+W_MUT = 'call modifies the array it was given'
+W_REPEAT = 'repeated call on the same object with the same input gives a different result'
 
 # --------------------------------------------------------------------------- FKM material estimates (guideline table 2.8)
 FKM = {'Steel': (206e3, 0.187, 3.1148, 0.897, 1033., -1.235, 0.338),
@@ -198,7 +200,56 @@ def cls_en_load_unconverged(d):
     return d.get('law') == 'ExtendedNeuber' and d.get('solver_warned') is True and abs(d['load_of_stress'] - d['load']) <= 1e-3 * abs(d['load'])
 
 
-CLASSES = {'sb_scalar': cls_sb_scalar, 'sb_kp_near_1_array': cls_sb_kp1_array, 'en_load_unconverged_array': cls_en_load_unconverged, 'sb_near_elastic_inverse': cls_sb_near_elastic_inverse, 'one_element_series': cls_series1, 'en_dload_elastic_term': cls_en_dload,
+def secant_start_above_load(Kp, L):
+    """scipy's scalar secant takes its second starting point at x0 (1 + 1e-4) + 1e-4; with the law's x0 = L (1 - (1 - 1/K_p)/1000)
+    that point is at or above the load (outside the law's interval [L/K_p, L]) iff this holds (K_p < 1.11 for loads >> 1)."""
+    a = abs(L)
+    return a > 0 and a * (1.0 - (1.0 - 1.0 / Kp) / 1000.0) * (1.0 + 1e-4) + 1e-4 >= a
+
+
+def cls_sb_secant_start(d):
+    """Seeger-Beste with K_p so close to 1 that the secant iteration starts with one point above the load, where the continued
+    equation (u < 0) has a hump and a second root: the value is within 0.2 % of the load (not a root / just above the load)."""
+    return d.get('law') == 'SeegerBeste' and secant_start_above_load(d['K_p'], d['load']) and d['returned'] * d['load'] > 0 and \
+        abs(abs(d['returned']) - abs(d['load'])) <= 2e-3 * abs(d['load'])
+
+
+def cls_sb_kp1_scalar(d):
+    """Seeger-Beste with K_p <= 1.005 on a scalar / one-element input (scipy's scalar secant, second starting point above the load): the
+    iteration occasionally leaves the neighbourhood of the load altogether and scipy still reports convergence (any value, even of the
+    wrong sign) - the scalar sibling of sb_kp_near_1_array."""
+    c = str(d.get('container', ''))
+    scalar = c in ('float', 'np.float64', 'ndarray[0d]', 'ndarray[1]', 'Series[1]', 'int', 'np.int64', 'int64 ndarray[1]')
+    return d.get('law') == 'SeegerBeste' and d['K_p'] <= 1.005 and scalar and secant_start_above_load(d['K_p'], d['load'])
+
+
+def _nan(x):
+    return isinstance(x, float) and x != x
+
+
+def cls_en_load_zero(d):
+    """extended Neuber, load()/load_secondary_branch() on an array (more than one element) that contains a stress of exactly 0:
+    NaN for that element (the scalar 0.0 gives 0.0)."""
+    return d.get('law') == 'ExtendedNeuber' and str(d.get('method', '')).startswith('load') and d.get('load') == 0 and d.get('stress') == 0 and \
+        _nan(d.get('load_of_stress')) and 'containing 0' in str(d.get('container'))
+
+
+def cls_sb_zero(d):
+    """Seeger-Beste, any of the four solver methods on an array (more than one element) that contains a load / stress of exactly 0: NaN for that element."""
+    return d.get('law') == 'SeegerBeste' and d.get('load') == 0 and 'containing 0' in str(d.get('container')) and \
+        (_nan(d.get('load_of_stress')) if str(d.get('method', '')).startswith('load') else _nan(d.get('returned')))
+
+
+def cls_en_int_array(d):
+    """extended Neuber, stress()/stress_secondary_branch() on an integer-typed ndarray / Series / list of more than one element:
+    ValueError 'Integers to negative integer powers are not allowed' from np.power(stress, -2) in the analytic derivative."""
+    c = str(d.get('container', ''))
+    return d.get('law') == 'ExtendedNeuber' and d.get('method') in ('stress', 'stress_secondary_branch') and d.get('exception') == 'ValueError' and \
+        c.startswith(('int64 ndarray[', 'int64 Series[', 'list of int [')) and not c.endswith('[1]')
+
+
+CLASSES = {'sb_secant_start_above_load': cls_sb_secant_start, 'sb_kp_near_1_scalar': cls_sb_kp1_scalar, 'en_load_zero_in_array': cls_en_load_zero, 'sb_zero_in_array': cls_sb_zero,
+           'en_integer_array': cls_en_int_array, 'sb_scalar': cls_sb_scalar, 'sb_kp_near_1_array': cls_sb_kp1_array, 'en_load_unconverged_array': cls_en_load_unconverged, 'sb_near_elastic_inverse': cls_sb_near_elastic_inverse, 'one_element_series': cls_series1, 'en_dload_elastic_term': cls_en_dload,
            'sb_near_elastic': cls_sb_near_elastic, 'sb_overshoot_small': cls_sb_overshoot}
 
 
@@ -217,7 +268,15 @@ def gen_samples(rng, k, m):
         if rng.random() < 0.25:        # off-estimate materials as well
             K *= rng.uniform(0.8, 1.25)
             n = rng.uniform(0.1, 0.3)
-        Kp = rng.choice(KPS_EN) if rng.random() < 0.7 else rng.uniform(1.0, 10.0)
+        q = rng.random()
+        if q < 0.55:
+            Kp = rng.choice(KPS_EN)
+        elif q < 0.75:
+            # thin-walled / nearly unnotched sections: K_p - 1 log-uniform in 1e-3 .. 0.2 (scipy's secant takes its second
+            # starting point 1e-4 relative above the first one: for K_p < 1.11 that is above the load)
+            Kp = 1.0 + 10.0 ** rng.uniform(-3.0, -0.7)
+        else:
+            Kp = rng.uniform(1.0, 10.0)
         tol = rng.choice(TOLS)
         mags = sorted(rng.uniform(1e-3, 4.0) * Rm for _ in range(m))
         if i % 4 == 0:
@@ -327,6 +386,194 @@ def check_value(res, st, lawname, mat, Kp, tol, L, s, sec, ctx):
     return ok
 
 
+def same_bits(a, b):
+    a, b = np.asarray(a, float), np.asarray(b, float)
+    return a.shape == b.shape and np.array_equal(a, b, equal_nan=True)
+
+
+def load_allow(lawname, mat, tol, s, L, sec):
+    """How far two admissible results of load(s) may be apart (both within 2 tau_L of the exact load, plus what the
+    double-precision evaluation of the Seeger-Beste equation can resolve)."""
+    tauL = tol + tol * abs(L)
+    if lawname == 'ExtendedNeuber':
+        return 4 * tauL
+    F, Fs, FL, u = sb_F(*mat, abs(s), abs(L), sec)
+    if not math.isfinite(F) or not FL:
+        return math.inf
+    return 4 * tauL + 2 * (8 * sb_noise(u) / abs(FL))
+
+
+def input_domain_relations(res, st, lawname, mat, tol, sec, stress_fn, load_fn, Lvec, arr, good, R):
+    """Inputs at the rim of 'every load, both signs, every input container type' (added after the seeded changes):
+    * a load of exactly 0 (alone, and inside an array next to loads of both signs): the bounds |s| in [|L|/K_p, |L|] and
+      oddness leave only s = 0, and 0 is what the laws return for a scalar 0.0 when they return; the same for load(0);
+      the other elements of that array must be as good as without the zero;
+    * integer-valued loads handed over as Python int, np.int64, integer ndarray, integer Series, list of int, list of
+      float, tuple: same result as the float ndarray of the same numbers (within the certified radius; the code path may differ);
+    * a Series with a permuted (non-default) integer index: positional, bit for bit the ndarray result."""
+    E, K, n, Kp = mat
+    br = '_secondary_branch' if sec else ''
+    tag = '%s.stress%s' % (lawname, br)
+    ltag = '%s.load%s' % (lawname, br)
+    base = dict(law=lawname, branch='secondary' if sec else 'primary', E=E, K=K, n=n, K_p=Kp, tol=tol)
+    m = len(Lvec)
+    # ------------------------------------------------------------------ zero
+    zpos = (1, 3)
+    withz = np.array([Lvec[0], 0.0, -Lvec[-1], -0.0, Lvec[m // 2]])
+    src = (0, None, m - 1, None, m // 2)
+    sgn = (1.0, 0.0, -1.0, 0.0, 1.0)
+    for cname, x in (('ndarray[5] containing 0', withz), ('Series[5] containing 0', pd.Series(withz)), ('float', 0.0), ('ndarray[1]', np.array([0.0]))):
+        v, ex = call(stress_fn, x, tol, st, tag + '[zero:%s]' % cname.split('[')[0])
+        st.inc('zero_calls')
+        if v is None:
+            if ex != 'RuntimeError':
+                res.violation(W_CONT, method='stress' + br, container=cname, exception=ex, loads=np.asarray(x, float).reshape(-1).tolist(), **base)
+            continue
+        v = np.asarray(v, float).reshape(-1)
+        xs = np.asarray(x, float).reshape(-1)
+        for i in range(len(xs)):
+            if xs[i] == 0:
+                st.inc('zero_values_checked')
+                if not v[i] == 0:
+                    res.violation(W_BOUNDS, load=0.0, returned=float(v[i]), lower=0.0, upper=0.0, method='stress' + br, container=cname, index=i,
+                                  loads=xs.tolist(), plastic_share=0.0, **base)
+            elif good[src[i]]:
+                # the neighbours of a zero: still roots, and the same as without the zero
+                if check_value(res, st, lawname, mat, Kp, tol, xs[i], v[i], sec, dict(container=cname, index=i, loads=xs.tolist())):
+                    if not abs(v[i] - sgn[i] * arr[src[i]]) <= 2 * R[src[i]]:
+                        res.violation(W_CONT, method='stress' + br, container=cname + ' vs ndarray[%d]' % m, load=float(xs[i]), loads=xs.tolist(),
+                                      scalar_result=float(v[i]), array_result=float(sgn[i] * arr[src[i]]), **base)
+    if all(good[j] for j in (0, m - 1, m // 2)):
+        sz = np.array([arr[0], 0.0, -arr[m - 1], -0.0, arr[m // 2]])
+        for cname, x in (('ndarray[5] containing 0', sz), ('Series[5] containing 0', pd.Series(sz)), ('float', 0.0), ('ndarray[1]', np.array([0.0]))):
+            v, ex = call(load_fn, x, tol, st, ltag + '[zero:%s]' % cname.split('[')[0])
+            st.inc('zero_calls')
+            if v is None:
+                if ex != 'RuntimeError':
+                    res.violation(W_CONT, method='load' + br, container=cname, exception=ex, stresses=np.asarray(x, float).reshape(-1).tolist(), **base)
+                continue
+            v = np.asarray(v, float).reshape(-1)
+            xs = np.asarray(x, float).reshape(-1)
+            for i in range(len(xs)):
+                if xs[i] == 0:
+                    st.inc('zero_values_checked')
+                    if not v[i] == 0:
+                        res.violation(W_INV, load=0.0, stress=0.0, returned=0.0, load_of_stress=float(v[i]), allowed_difference=0.0, method='load' + br,
+                                      container=cname, index=i, stresses=xs.tolist(), plastic_share=0.0, solver_warned=bool(st.get('last_warned')), **base)
+                else:
+                    L = sgn[i] * Lvec[src[i]]
+                    allow = 2 * (tol + tol * abs(L)) + (Kp * R[src[i]] if lawname == 'ExtendedNeuber' else load_allow(lawname, mat, tol, xs[i], L, sec) + Kp * R[src[i]])
+                    if not (math.isfinite(v[i]) and abs(v[i] - L) <= allow):
+                        res.violation(W_INV, load=float(L), stress=float(xs[i]), returned=float(xs[i]), load_of_stress=float(v[i]), allowed_difference=allow,
+                                      method='load' + br, container=cname, index=i, stresses=xs.tolist(),
+                                      plastic_share=plastic_share(E, K, n, L / (2.0 if sec else 1.0)), solver_warned=bool(st.get('last_warned')), **base)
+    # ------------------------------------------------------------------ integer-valued loads, lists, permuted index
+    Li = np.maximum(1, np.rint(Lvec)).astype(np.int64) * np.array([1 if i % 2 == 0 else -1 for i in range(m)], dtype=np.int64)
+    Lf = Li.astype(float)
+    ref, ex = call(stress_fn, Lf, tol, st, tag + '[ndarray]')
+    if ref is not None:
+        ref = np.asarray(ref, float)
+        okr = np.array([check_value(res, st, lawname, mat, Kp, tol, L, s, sec, dict(container='ndarray[%d]' % m, index=i, loads=Lf.tolist()))
+                        for i, (L, s) in enumerate(zip(Lf, ref))])
+        Rr = np.array([radius(lawname, mat, s, L, tol, sec) if g else math.inf for s, L, g in zip(ref, Lf, okr)])
+        perm = [(3 * i + 1) % m for i in range(m)] if m % 3 else list(range(m))[::-1]       # a fixed non-identity permutation as index labels
+        k = m // 2
+        conts = [('int64 ndarray[%d]' % m, Li, None), ('int64 Series[%d]' % m, pd.Series(Li), None), ('list of int [%d]' % m, [int(x) for x in Li], None),
+                 ('list of float [%d]' % m, [float(x) for x in Li], None), ('tuple of float [%d]' % m, tuple(float(x) for x in Li), None),
+                 ('Series[%d] with permuted index' % m, pd.Series(Lf, index=perm), 'bits'),
+                 ('int', int(Li[k]), k), ('np.int64', Li[k], k), ('int64 ndarray[1]', Li[k:k + 1], k)]
+        for cname, x, mode in conts:
+            v, ex = call(stress_fn, x, tol, st, tag + '[dtype]')
+            st.inc('dtype_calls')
+            if v is None:
+                if ex != 'RuntimeError':
+                    res.violation(W_CONT, method='stress' + br, container=cname, exception=ex, loads=Lf.tolist(), **base)
+                continue
+            v = np.asarray(v, float).reshape(-1)
+            if mode == 'bits':
+                if not same_bits(v, ref):
+                    res.violation(W_CONT, method='stress' + br, container=cname + ' vs ndarray', loads=Lf.tolist(), ndarray=ref.tolist(), series=v.tolist(), **base)
+                continue
+            idx = range(m) if mode is None else [mode]
+            if len(v) != len(idx):
+                res.violation(W_CONT, method='stress' + br, container=cname, loads=Lf.tolist(), ndarray=ref.tolist(), result=v.tolist(), **base)
+                continue
+            for j, i in enumerate(idx):
+                if not okr[i]:
+                    continue
+                if not check_value(res, st, lawname, mat, Kp, tol, Lf[i], v[j], sec, dict(container=cname, index=i, loads=Lf.tolist())):
+                    continue
+                if not abs(v[j] - ref[i]) <= Rr[i] + radius(lawname, mat, v[j], Lf[i], tol, sec):
+                    res.violation(W_CONT, method='stress' + br, container=cname + ' vs ndarray[%d]' % m, load=float(Lf[i]), loads=Lf.tolist(),
+                                  scalar_result=float(v[j]), array_result=float(ref[i]), **base)
+        # backward direction with integer-valued stresses
+        Si = np.where(okr, np.rint(ref), Li).astype(np.int64)
+        Si[Si == 0] = 1
+        Sf = Si.astype(float)
+        refl, ex = call(load_fn, Sf, tol, st, ltag + '[ndarray]')
+        if refl is not None and not st.get('last_warned'):
+            refl = np.asarray(refl, float)
+            for cname, x, mode in (('int64 ndarray[%d]' % m, Si, None), ('int64 Series[%d]' % m, pd.Series(Si), None), ('list of int [%d]' % m, [int(x) for x in Si], None),
+                                   ('Series[%d] with permuted index' % m, pd.Series(Sf, index=perm), 'bits'), ('int', int(Si[k]), k), ('np.int64', Si[k], k)):
+                v, ex = call(load_fn, x, tol, st, ltag + '[dtype]')
+                st.inc('dtype_calls')
+                if v is None:
+                    if ex != 'RuntimeError':
+                        res.violation(W_CONT, method='load' + br, container=cname, exception=ex, stresses=Sf.tolist(), **base)
+                    continue
+                if st.get('last_warned'):
+                    continue
+                v = np.asarray(v, float).reshape(-1)
+                if mode == 'bits':
+                    if not same_bits(v, refl):
+                        res.violation(W_CONT, method='load' + br, container=cname + ' vs ndarray', stresses=Sf.tolist(), ndarray=refl.tolist(), series=v.tolist(), **base)
+                    continue
+                idx = range(m) if mode is None else [mode]
+                if len(v) != len(idx):
+                    res.violation(W_CONT, method='load' + br, container=cname, stresses=Sf.tolist(), ndarray=refl.tolist(), result=v.tolist(), **base)
+                    continue
+                for j, i in enumerate(idx):
+                    if not (math.isfinite(refl[i]) and refl[i] * Sf[i] > 0):
+                        continue
+                    if not abs(v[j] - refl[i]) <= load_allow(lawname, mat, tol, Sf[i], refl[i], sec):
+                        res.violation(W_CONT, method='load' + br, container=cname + ' vs ndarray[%d]' % m, stress=float(Sf[i]), stresses=Sf.tolist(),
+                                      scalar_result=float(v[j]), array_result=float(refl[i]), **base)
+
+
+LADDERS = [(24, None, False), (24, None, True), (80, 1e-6, False), (48, 1e-6, True)]       # (elements, tolerance or None = the sample's clamped to 1e-6..1e-5, alternating signs)
+
+
+def transition_ladder_relations(res, st, lawname, mat, tol, sec, stress_fn, records):
+    """Array calls on geometric ladders through the elastic-plastic transition: amplitudes K' * 10^q, q = -2 .. 0.3 (plastic strain
+    share 1e-7 .. 100), 24 / 48 / 80 elements, one-signed and alternating signs.  In the (nearly) elastic part scipy's vectorised secant flags
+    elements of the Seeger-Beste call as not converged, so that the per-element retry (_stress_fix_not_converged_values /
+    _stress_secondary_fix_not_converged_values) runs for elements with noticeable plasticity: every element must be a root of its own
+    branch's equation.  (Added after seeded change C06-1: the 5-element ladders reach the retry of a plastic element only by luck.)
+    Tolerances: 1e-6 (where the retry of plastic elements is most frequent) or the sample's clamped to 1e-6..1e-5; below 1e-6 the Seeger-Beste
+    array call raises RuntimeError on 40-70 % of these ladders on the unchanged tree (the retry of a nearly elastic element does not
+    converge) -- those tolerances are exercised on the 5-element ladders."""
+    E, K, n, Kp = mat
+    br = '_secondary_branch' if sec else ''
+    for N, t, alt in LADDERS:
+        t = min(max(tol, 1e-6), 1e-5) if t is None else t
+        amp = np.array([K * 10.0 ** (-2.0 + 2.3 * j / (N - 1)) for j in range(N)])
+        sg = np.array([-1.0 if (alt and j % 2) else 1.0 for j in range(N)])
+        Lvec = amp * (2.0 if sec else 1.0) * sg
+        v, ex = call(stress_fn, Lvec, t, st, '%s.stress%s[ladder]' % (lawname, br))
+        st.inc('ladder_calls')
+        if v is None:
+            if ex != 'RuntimeError':
+                res.violation(W_CONT, law=lawname, method='stress' + br, container='ndarray[%d]' % N, exception=ex, E=E, K=K, n=n, K_p=Kp, tol=t, loads=Lvec.tolist())
+            continue
+        v = np.asarray(v, float)
+        cname = 'ndarray[%d]%s' % (N, ' alternating signs' if alt else '')
+        for i in range(N):
+            ok = check_value(res, st, lawname, mat, Kp, t, Lvec[i], v[i], sec, dict(container=cname, index=i, ladder=[N, alt], loads=Lvec.tolist()))
+            st.inc('ladder_values_checked')
+            if i % 4 == 0:
+                records.append((lawname, sec, mat, t, float(Lvec[i]), float(v[i]), bool(ok), st.get('last_how')))
+
+
 def relations_one(res, st, smp, records):
     """All relations of the property for one (material, K_p, tol, load ladder) on the implementation."""
     E, K, n, Kp, tol = smp['E'], smp['K'], smp['n'], smp['K_p'], smp['tol']
@@ -340,6 +587,7 @@ def relations_one(res, st, smp, records):
             strain_fn = getattr(law, 'strain' + br)
             tag = '%s.stress%s' % (lawname, br)
             Lvec = lad * (2.0 if sec else 1.0)          # ranges go up to twice the amplitude
+            Lvec0 = Lvec.copy()
             ctx0 = dict(loads=Lvec.tolist())
             arr, ex = call(stress_fn, Lvec, tol, st, tag + '[ndarray]')
             st.inc('calls')
@@ -412,6 +660,9 @@ def relations_one(res, st, smp, records):
             if gi:
                 sub = arr[gi]
                 back, ex = call(load_fn, sub, tol, st, '%s.load%s[ndarray]' % (lawname, br))
+                if not np.array_equal(sub, arr[gi]):
+                    res.violation(W_MUT, law=lawname, method='load' + br, E=E, K=K, n=n, K_p=Kp, tol=tol, stresses=arr[gi].tolist(), stresses_after_call=sub.tolist())
+                    sub = arr[gi]
                 if back is None and ex != 'RuntimeError':
                     res.violation(W_CONT, law=lawname, method='load' + br, container='ndarray[%d]' % len(sub), exception=ex, E=E, K=K, n=n, K_p=Kp, tol=tol, stresses=sub.tolist())
                 if back is not None:
@@ -444,6 +695,18 @@ def relations_one(res, st, smp, records):
                         if not abs(float(v) - back[k]) <= lim:
                             res.violation(W_CONT, law=lawname, method='load' + br, container='float vs ndarray[%d]' % len(sub), E=E, K=K, n=n, K_p=Kp, tol=tol,
                                           stress=float(sub[k]), stresses=sub.tolist(), scalar_result=float(v), array_result=float(back[k]))
+            # ---- the calls above must not have written into the caller's array, and asking again gives the same answer
+            if not np.array_equal(Lvec, Lvec0):
+                res.violation(W_MUT, law=lawname, method='stress' + br, E=E, K=K, n=n, K_p=Kp, tol=tol, loads=Lvec0.tolist(), loads_after_call=Lvec.tolist())
+                Lvec = Lvec0.copy()
+            again, ex = call(stress_fn, Lvec, tol, st, tag + '[ndarray]')
+            if again is not None and not same_bits(again, arr):
+                res.violation(W_REPEAT, law=lawname, method='stress' + br, E=E, K=K, n=n, K_p=Kp, tol=tol, loads=Lvec.tolist(), first=arr.tolist(),
+                              second=np.asarray(again, float).tolist())
+            # ---- dense ladder through the elastic-plastic transition (retry path of Seeger-Beste next to plastic elements)
+            transition_ladder_relations(res, st, lawname, mat, tol, sec, stress_fn, records)
+            # ---- zero loads, integer-valued loads, lists, permuted Series index
+            input_domain_relations(res, st, lawname, mat, tol, sec, stress_fn, load_fn, Lvec, arr, good, R)
         if lawname == 'ExtendedNeuber':
             derivative_relations(res, st, law, smp)
 
@@ -617,8 +880,10 @@ def run(res, only=None):
                         'scalar vs array agreement is up to that distance (scipy iterates all elements of an array until the slowest converged); ndarray vs Series is bit for bit',
                         'floating-point rounding of numpy is outside the theorems: value certificates compare at 1e-8 relative']
     res.cov['rule'] = ('materials from the FKM estimates (Steel / SteelCast / Al_wrought, R_m 200..1400 MPa; a quarter with perturbed K\', n\'), K_p in {1, 1.001, 1.5, 3.5, 10} or uniform(1,10) '
-                       '(Seeger-Beste only K_p > 1), ladders of loads 1e-3..4 R_m with gaps >= 2 %, both signs, ranges up to twice that, tol = rtol in 1e-4..1e-10, '
-                       'containers float / np.float64 / 0-d / 1-element ndarray and Series / ndarray / Series; non-trivial = distinct (law, branch, material, K_p, load) whose load has a '
+                       '(20 % of the samples: K_p - 1 log-uniform in 1e-3..0.2; Seeger-Beste only K_p > 1), ladders of loads 1e-3..4 R_m with gaps >= 2 %, both signs, ranges up to twice that, tol = rtol in 1e-4..1e-10, '
+                       'containers float / np.float64 / 0-d / 1-element ndarray and Series / ndarray / Series / Series with permuted index / integer-valued loads as int, np.int64, int64 ndarray, '
+                       'int64 Series, list of int, list and tuple of float; a load of exactly 0 alone and inside arrays; per law and branch geometric ladders of 24/48/80 amplitudes K\'*10^(-2..0.3) '
+                       '(tol 1e-6..1e-5) through the elastic-plastic transition; non-trivial = distinct (law, branch, material, K_p, load) whose load has a '
                        'plastic strain share > 1e-6 (the law differs from sigma = L), counted over returned values that were checked')
     proofs_ok = common.standard_proof_stage(res, 'C06', extra_targets=['theories/Common/Cert.vo'], gen_fn=lambda: gen_specs.generate(GEN))
     k, m, per_kind = (36, 5, 8) if quick else (400, 8, 45)
@@ -632,7 +897,7 @@ def run(res, only=None):
     # on the unchanged tree at most ~5 % of the calls of any method raise
     for tag in sorted(k_[8:] for k_ in st if k_.startswith('attempt:')):
         att, rs = st['attempt:' + tag], st.get('solver_raised:' + tag, 0)
-        if att >= 8 and tag != 'witness':
+        if att >= 8 and tag != 'witness' and '[zero:' not in tag:        # a load of exactly 0 is singular for the solvers: counted, see coverage.solver_raised
             res.oblige('solver converges on >= 75 %% of the sampled inputs: %s (%d of %d raised)' % (tag, rs, att), rs <= 0.25 * att)
     res.cov['implementation_relations'] = {k_: v for k_, v in st.items() if not k_.startswith(('attempt:', 'last_'))}
     res.cov['solver_raised'] = {k_: v for k_, v in st.items() if k_.startswith('solver_')}
@@ -671,7 +936,7 @@ def replay(res, rp):
         return res.finish()
     loads = v.get('loads') or [v.get('load', 100.0)]
     div = 2.0 if v.get('branch') in ('secondary', '_secondary_branch') or 'secondary' in str(v.get('method', '')) + str(v.get('function', '')) else 1.0
-    loads = sorted({abs(float(x)) / div for x in loads if x})
+    loads = sorted({abs(float(x)) / div for x in loads if x}) or [100.0, 200.0, 359.0]       # zero-load / container violations do not depend on the ladder
     smp = dict(group='replay', Rm=0, E=v['E'], K=v['K'], n=v['n'], K_p=v['K_p'], tol=v.get('tol', 1e-4), loads=loads)
     run(res, only=[smp])
     return res.finish()
